@@ -11,6 +11,9 @@ PROP = 'C13'
 def worker(chunk):
     if chunk and chunk[0] == 'inflight':
         return inflight_worker(chunk)
+    if chunk and chunk[0] == 'loss_in_cb':
+        from . import c16
+        return c16.loss_in_callback_worker(chunk)
     acc = Acc()
     for (sc, bound, seed) in chunk:
         def run(prefix):
@@ -144,6 +147,7 @@ def run(tier, seed):
     light = [it for it in items if it[1] == 0]
     chunks = heavy + [light[i:i + 25] for i in range(0, len(light), 25)]
     for dll in ('j1939-21', 'j1939-22'):
+        chunks.append(('loss_in_cb', dll, seed, 'C13'))      # the address is lost while the cyclic DM1 is being prepared
         for kind in ('bam', 'out', 'in'):
             for aac in (0, 1):
                 chunks.append(('inflight', dll, kind, aac, seed))
@@ -153,6 +157,16 @@ def run(tier, seed):
 
 def replay(rec):
     sc = rec['scenario']
+    if sc.get('part') == 'address lost during the DM1 data callback':
+        from . import c16
+        a0 = c16.loss_in_callback_worker(('loss_in_cb', sc['dll'], rec.get('seed', 0), 'C13'))
+        mine = [v for v in a0.violations if v['scenario'] == sc]
+        if mine:
+            print("REPRODUCED: " + "; ".join(mine[0]['detail']))
+            print("VIOLATION property=%s replay=(this file)" % PROP)
+            return 1
+        print("no violation on this tree")
+        return 0
     if sc.get('part'):
         n, probs, trace = inflight_one(sc['dll'], sc['kind'], sc['aac'], sc['after_frame'], keep=True)
         print("\n".join(trace))
